@@ -263,18 +263,24 @@ func vc17Setup(t *rapid.T, types []string, maxSteps int) *vc17Chan {
 	// within +-2 sat of a dust boundary -- its own channel dust limit
 	// (output trimming) or a script dust limit (294/330/354 sat: which
 	// closing_complete signature field the RBF flow uses).
+	// Only the non-opener can sit that low (the opener keeps its reserve),
+	// and only a payment towards it can move it there.
 	shaped := ""
-	if rapid.IntRange(0, 2).Draw(t, "shape") == 0 {
-		y := rapid.IntRange(0, 1).Draw(t, "shapeReceiver")
+	{
+		y := 1 - c.op
 		full := [2]int{len(s.M.U[0]), len(s.M.U[1])}
 		cur := int64(s.Expect(0, s.M.RevsSent[0], full).Stored[y])
-		targets := []int64{int64(p.Dust[y]), 294, 330, 354}
-		target := targets[rapid.IntRange(0, len(targets)-1).Draw(t,
-			"shapeTarget")] + int64(rapid.IntRange(-2, 2).Draw(t,
-			"shapeDelta"))
-		amt := target*1000 + int64(rapid.IntRange(0, 999).Draw(t,
-			"shapeMsat")) - cur
-		if amt > 0 {
+		// (every target is >= 198 sat, so the payment is positive)
+		if cur < 190_000 && rapid.IntRange(0, 3).Draw(t, "shape") != 0 {
+			targets := []int64{int64(p.Dust[y]), 294, 330, 354}
+			target := targets[rapid.IntRange(0, len(targets)-1).Draw(t,
+				"shapeTarget")]
+			if rapid.Bool().Draw(t, "shapeOff") {
+				target += int64(rapid.IntRange(-2, 2).Draw(t,
+					"shapeDelta"))
+			}
+			amt := target*1000 + int64(rapid.IntRange(0, 999).Draw(t,
+				"shapeMsat")) - cur
 			ok, err := s.DoAdd(1-y, lnwire.MilliSatoshi(amt), 510, nil)
 			if err != nil {
 				c.fail(t, "%v", err)
